@@ -316,6 +316,8 @@ def load_symbols(idx, image_bytes, names, offsets):
                 return None
         if kind == 'method' and name == 'data' and 'array' in t:
             return ('memory',)
+        if kind == 'function' and name in ('memcpy', 'memset', 'memmove'):
+            return None
         if kind == 'function' and name == 'make_pair':
             return ('pair',) + tuple(I.expr(a, env) for a in args)
         if name == 'eof' and kind == 'function':
